@@ -44,7 +44,7 @@ def mc_files(fam):
     return mc, cfg, tags
 
 
-def run_families(c, families, binp, nontrivial, procs=6):
+def run_families(c, families, binp, nontrivial, procs=4):
     tot = dict(states=0, transitions=0, behaviours=0, steps=0, edges=0, uncovered=0, sims=0)
     samples, stats, nontriv, cover = [], {}, 0, {}
     for fam in families:
